@@ -4,10 +4,9 @@
    expiry times, Duration is fixed) are unbounded in the SMT encoding; the bounds
    are on cardinalities only: |L| <= 4, |granted| <= 4, 3 secrets.
 
-     base   apalache-mc check --init=Init    --inv=IndInv --length=0 MC_Leases_apa.tla
-     step   apalache-mc check --init=IndInit --inv=IndInv --length=1 MC_Leases_apa.tla
-     action apalache-mc check --init=IndInit --inv=MonotoneStep --length=1 MC_Leases_apa.tla
-     impl   apalache-mc check --init=IndInit --inv=Props  --length=0 MC_Leases_apa.tla *)
+     base   apalache-mc check --init=Init    --inv=IndInvA --length=0 MC_Leases_apa.tla
+     step   apalache-mc check --init=IndInit --inv=IndInvA,Props,MonotoneStep --length=1 MC_Leases_apa.tla
+   (Props at state 0 of the step query is IndInv => Honoured /\ NoSecondLease; MonotoneStep is an action invariant) *)
 EXTENDS Integers, Apalache
 
 VARIABLES
